@@ -167,6 +167,26 @@ example : (match serveVec examplePack staticModel 3 (StaticLRU.new 2 0) [9, 9, 9
     | _ => ([], 0)) = ([(19, 2), (19, 0), (18, 1), (11, 0), (19, 0)], 19) := by
   decide +kernel
 
+/-- a THIN pack: the delta at offset 30 refers to an object outside the pack (`ResolvedBase::OutOfPack`) -/
+def thinPack : Pack where
+  entry := fun off =>
+    if off = 30 then some (.ref [2] [11, 18, 0x90, 5, 7, 44, 32, 116, 104, 101, 114, 101, 0x91, 5, 6] 23)
+    else if off = 40 then some (.ofs 30 [18, 19, 0x90, 18, 1, 33] 14)
+    else none
+  resolve := fun _ => none
+  external := fun id => if id = [2] then some (.blob, [104, 101, 108, 108, 111, 32, 119, 111, 114, 108, 100]) else none
+
+-- `resolve_exact` / `resolve_exact_vec` cover external bases: their hypothesis is met …
+example : Spec.obj thinPack 2 40 =
+    some (.blob, [104, 101, 108, 108, 111, 44, 32, 116, 104, 101, 114, 101, 32, 119, 111, 114, 108, 100, 33]) := by
+  decide +kernel
+
+-- … and the single-vector model reads it, with and without the intermediate in the cache
+example : (match serveVec thinPack staticModel 2 (StaticLRU.new 1 0) [7, 7, 7] [40, 30, 40] with
+    | .ok (ds, _, _) => ds.map (fun d => (d.data.length, d.numDeltas))
+    | _ => []) = [(19, 2), (18, 1), (19, 1)] := by
+  decide +kernel
+
 /-! ### the defects that were repaired -/
 
 /-- Before commit b8e651952: with a memory limit of 10 bytes the third one-byte `put` panicked on
